@@ -31,6 +31,9 @@ def weird(shape, dtype, rng):
     return a
 
 
+_MIS_COUNT = [0]
+
+
 def build(cs, dtype, rng, grid_size, origin, dx, skip=()):
     """-> (io, arrays dict name -> array).  skip: names not to register."""
     import sopht.utils as spu
@@ -139,13 +142,19 @@ def replay(chk, e, dtype, rng):
     else:
         load_from = fn
     lo, ldx, lgs = list(origin), list(dx), list(grid_size)
+    # ONE component differs, and which one rotates over the scenarios (a loader that compares a single component, or any() instead of
+    # all(), must not get away with it); sizes of the mismatch: 1 / 0.02 (origin), x2 / x1.01 (spacing), +1 (one extent)
+    _MIS_COUNT[0] += 1
+    ax = _MIS_COUNT[0] % dim
     if mis == "origin":
-        lo[0] += 1.0
+        lo[ax] += (1.0, 0.02)[(_MIS_COUNT[0] // dim) % 2]
     if mis == "dx":
-        ldx[-1] *= 2
+        ldx[ax] *= (2, 1.01)[(_MIS_COUNT[0] // dim) % 2]
     dst_io, dst = build(cs, dtype, np.random.default_rng(2), grid_size, lo, ldx)
     if mis == "grid_size" and cs["ef"]:
-        dst_io.eulerian_grid_size = np.array(grid_size) + 1  # registry believes in another grid size
+        gs2 = np.array(grid_size)
+        gs2[ax] += 1
+        dst_io.eulerian_grid_size = gs2  # registry believes in another grid size
     raised = None
     try:
         t2 = dst_io.load(h5_file_name=load_from)
@@ -314,7 +323,7 @@ def run(chk: core.Check):
     chk.assumptions += [
         "array contents are arbitrary bit patterns (NaN payloads, infinities, denormals, signed zeros) compared by raw bytes",
         "field names are unique across grids (the registry is keyed by name: 'similar to numpy savez')",
-        "mismatches are far beyond the loader's allclose tolerance (origin + 1, spacing x 2, grid size + 1)",
+        "mismatches are beyond the loader's allclose tolerance and affect ONE component, rotating over the axes (origin + 1 or + 0.02, spacing x 2 or x 1.01, one extent + 1)",
         "h5py / HDF5 are exercised, not proved; files live in a scratch directory outside /repo and /verif",
     ]
     return "case = registry scenario (dimension, Eulerian fields, Lagrangian grids with marker counts incl. N = dim, fields, one mismatch) x precision"
